@@ -399,10 +399,18 @@ fn unb_sp() -> Vec<Env> {
 }
 
 
-/// one producer with three sends against one consumer at small capacities: the
-/// refill of the buffer from a blocked sender races with the producer's next
-/// send
+/// one producer with three (four) sends against one consumer at small
+/// capacities: the refill of the buffer from a blocked sender — which every
+/// receive variant implements on its own — races with the producer's next send
 fn three_sends(prefix: &str, thorough: bool, class: Class) -> Vec<Program> {
+    let firsts = [Op::Recv, Op::TryRecv, Op::TryRecvRt, Op::RecvT(2), Op::Next, Op::RecvRepoll];
+    let mut consumers: Vec<Vec<Op>> = Vec::new();
+    for x in firsts {
+        consumers.push(vec![x, Op::Len(Side::R), Op::Recv]);
+        consumers.push(vec![x, x, x]);
+    }
+    consumers.push(vec![Op::Recv, Op::Drain(VecState::Empty), Op::Recv]);
+    consumers.push(vec![Op::FRecv(0), Op::Poll(0, 0), Op::Len(Side::R), Op::TryRecv, Op::TryRecv]);
     product(
         prefix,
         &[
@@ -410,17 +418,13 @@ fn three_sends(prefix: &str, thorough: bool, class: Class) -> Vec<Program> {
                 vec![Op::Send, Op::Send, Op::Send],
                 vec![Op::Send, Op::Send, Op::TrySend],
                 vec![Op::TrySend, Op::Send, Op::Send],
+                vec![Op::Send, Op::Send, Op::Send, Op::TrySend],
             ],
-            vec![
-                vec![Op::Recv, Op::Recv, Op::Recv],
-                vec![Op::Recv, Op::Drain(VecState::Empty), Op::Recv],
-                vec![Op::TryRecv, Op::Recv, Op::TryRecv],
-                vec![Op::Recv, Op::Len(Side::R), Op::Recv],
-            ],
+            consumers,
         ],
         &[Cap::B(1), Cap::B(2)],
         &[class],
-        &[vec![(S, S), (S, S)], vec![(A, A), (S, S)]],
+        &[vec![(S, S), (S, S)], vec![(A, A), (S, S)], vec![(S, S), (A, A)]],
         &[(S, Conv::Clone)],
         &[env(2, 1, None, Some(if thorough { 5 } else { 3 }))],
         true,
@@ -603,6 +607,7 @@ fn c02(thorough: bool) -> Suite {
                 vec![Op::FSend(0), Op::Poll(0, 0), Op::FSend(1), Op::Poll(1, 0), Op::FSend(2), Op::Poll(2, 0), Op::FDrop(1), Op::Set(0), Op::Wait(1)],
                 vec![Op::FSend(0), Op::Poll(0, 0), Op::FSend(1), Op::Poll(1, 0), Op::FSend(2), Op::Poll(2, 0), Op::FDrop(0), Op::Set(0), Op::Wait(1)],
                 vec![Op::FSend(0), Op::Poll(0, 0), Op::SendT(1), Op::FSend(1), Op::Poll(1, 0), Op::Set(0), Op::Wait(1)],
+                vec![Op::FSend(0), Op::Poll(0, 0), Op::FSend(1), Op::Poll(1, 0), Op::Poll(0, 1), Op::Poll(0, 0), Op::Set(0), Op::Wait(1)],
             ],
             vec![
                 vec![Op::Wait(0), Op::Recv, Op::Recv, Op::Set(1)],
@@ -1086,6 +1091,21 @@ fn c08(thorough: bool) -> Suite {
         true,
     ));
     ps.extend(three_sends("c08-3sends", thorough, Class::P));
+    // zero-sized messages: the buffer's allocation is unbounded for them, only
+    // the channel's own capacity holds the sender back
+    ps.extend(product(
+        "c08-zst",
+        &[
+            seqs(&[Op::Send, Op::TrySend, Op::SendT(1), Op::TrySendO, Op::SendOT(1)], 2),
+            seqs_upto(&[Op::Recv, Op::TryRecv, Op::Len(Side::R)], 2),
+        ],
+        &[Cap::B(0), Cap::B(1), Cap::B(2)],
+        &[Class::Z, Class::DZ],
+        &sync_only(2),
+        &[(S, Conv::Clone)],
+        &[env(2, 1, None, pb2(thorough))],
+        true,
+    ));
     ps.extend(product(
         "c08-11-sp",
         &[
